@@ -168,6 +168,11 @@ const (
 	VersionLeadingZero                    // digits only but with a leading zero (open)
 	VersionHuge                           // digits only, a component longer than 9 digits (open: overflow handling is not specified)
 	VersionMalformed                      // anything else: not an HTTP version
+	// VersionMajorNotOne: digits only, the major numeral has leading zeros or
+	// more than 9 digits and its mathematical value is not 1 (e.g. 2^64+1,
+	// 2^32+1, 02): whatever an implementation's integer type makes of it,
+	// it is not HTTP/1.x.
+	VersionMajorNotOne
 )
 
 // ParseVersion classifies tok and, for VersionOK / VersionLeadingZero, returns the numbers.
@@ -200,6 +205,9 @@ func ParseVersion(tok string) (kind VersionKind, major, minor int) {
 	mi, ok2 := num(b)
 	if !ok1 || !ok2 {
 		return VersionMalformed, 0, 0
+	}
+	if stripped := strings.TrimLeft(a, "0"); stripped != "1" && (len(a) > 9 || a[0] == '0' && len(a) > 1) {
+		return VersionMajorNotOne, 0, 0
 	}
 	if len(a) > 9 || len(b) > 9 {
 		return VersionHuge, 0, 0
